@@ -345,3 +345,136 @@ Proof.
   - apply IH; cbn [vs_flush vs_flushed vs_cur]; auto.
   - apply IH; cbn [vs_drop vs_flushed vs_cur]; auto.
 Qed.
+
+(* ---------- Round 2: one history type with Add, Query (through the LRU), Flush and Drop ----------
+   The real onDropNotFlushed purges the HB/LA caches but NOT cache.ForklessCause, so an answer cached for
+   events that are dropped afterwards survives the drop and is served again when the events are re-added.
+   This is harmless because (i) an answer depends only on the sub-DAG below A (fc_spec_submap) and
+   (ii) ids determine events (an id is the hash of the event): every event ever added is drawn from one
+   consistent id -> event assignment U.  Both facts are hypotheses/lemmas of the theorem below. *)
+Inductive hop := HAdd (e : event) | HQuery (a b : N) | HFlush | HDrop.
+Definition hout := (N * N * bool * list (N * event))%type.   (* a, b, answer, view current at query time *)
+Definition hstate := (vstore * fcache * list hout)%type.
+Definition hstep (ws : list N) (q : N) (st : hstate) (op : hop) : hstate :=
+  let '(vs, c, out) := st in
+  match op with
+  | HAdd e => (snd (vs_add vs e), c, out)
+  | HQuery a b => let '(r, c') := fc_query ws q (vs_cur vs) c a b in (vs, c', (a, b, r, evs (vs_cur vs)) :: out)
+  | HFlush => (vs_flush vs, c, out)
+  | HDrop => (vs_drop vs, c, out) end.
+Fixpoint wf_hops (n : nat) (U Ef Ec : list (N * event)) (ops : list hop) : Prop :=
+  match ops with
+  | [] => True
+  | HAdd e :: r => wf_ev n Ec e /\ alookup (eid e) U = Some e /\ wf_hops n U Ef ((eid e, e) :: Ec) r
+  | HQuery a b :: r => (exists ea, alookup a Ec = Some ea) /\ (exists eb, alookup b Ec = Some eb) /\ wf_hops n U Ef Ec r
+  | HFlush :: r => wf_hops n U Ec Ec r
+  | HDrop :: r => wf_hops n U Ef Ef r end.
+
+(* a cached answer was right on SOME closed view consistent with U that contained both events *)
+Definition cached_ok ws q n (U : list (N * event)) (k : N * N) (r : bool) : Prop :=
+  exists E0, closed E0 /\ submap E0 U /\ (exists ea, alookup (fst k) E0 = Some ea) /\
+             (exists eb, alookup (snd k) E0 = Some eb) /\ r = fc_spec ws q n E0 (fst k) (snd k).
+Definition hst_ok ws q n U (st : hstate) : Prop :=
+  let '(vs, c, out) := st in
+  vinv n (vs_flushed vs) /\ vinv n (vs_cur vs) /\ submap (evs (vs_flushed vs)) U /\ submap (evs (vs_cur vs)) U /\
+  (forall k r, In (k, r) (fc_items c) -> cached_ok ws q n U k r) /\
+  (forall a b r E, In (a, b, r, E) out -> r = fc_spec ws q n E a b).
+
+(* an answer right on one closed view is right on every closed view with the same events *)
+Lemma cached_ok_view ws q n U a b r E : cached_ok ws q n U (a, b) r -> closed E -> submap E U ->
+  (exists ea, alookup a E = Some ea) -> (exists eb, alookup b E = Some eb) -> r = fc_spec ws q n E a b.
+Proof.
+  intros (E0 & Hc0 & Hs0 & Ha0 & Hb0 & ->) Hc Hs Ha Hb. cbn [fst snd] in *.
+  rewrite <- (fc_spec_submap ws q n E0 U a b Hs0 Hc0 Ha0 Hb0).
+  apply (fc_spec_submap ws q n E U a b Hs Hc Ha Hb).
+Qed.
+
+Lemma hstep_ok ws q n U st op : 0 < q -> hst_ok ws q n U st ->
+  (let '(vs, _, _) := st in wf_hops n U (evs (vs_flushed vs)) (evs (vs_cur vs)) [op]) ->
+  hst_ok ws q n U (hstep ws q st op).
+Proof.
+  intros Hq. destruct st as [[vs c] out]. intros (If & Ic & Sf & Sc & Hc & Ho) W.
+  destruct op as [e|a b| |]; cbn [hstep wf_hops] in *.
+  - destruct W as (We & HU & _). destruct (add_preserves n (vs_cur vs) e Ic We) as (s1 & Hadd & I1 & Hevs).
+    unfold vs_add. rewrite Hadd. cbn [snd]. unfold hst_ok. cbn [vs_flushed vs_cur]. rewrite Hevs.
+    repeat (split; [assumption|]). split; [|auto].
+    intros x ex Hx. cbn [alookup] in Hx. destruct (N.eqb_spec x (eid e)) as [->|]; [congruence|apply Sc; exact Hx].
+  - destruct W as ([ea Ha] & [eb Hb] & _). unfold fc_query, fcache_get.
+    destruct (fcache_find (a, b) (fc_items c)) as [r|] eqn:Hfind.
+    + destruct (fcache_find_in _ _ _ Hfind) as (k' & Hin & Hk). apply fckey_eqb_eq in Hk. subst k'.
+      pose proof (Hc (a, b) r Hin) as Hr. unfold hst_ok. cbn [fc_items].
+      repeat (split; [assumption|]). split.
+      * intros k r' [[= <- <-]|Hin']; [exact Hr|]. apply Hc. eapply fcache_remove_incl; eauto.
+      * intros a' b' r' E' [[= <- <- <- <-]|Hin']; [|eapply Ho; eauto].
+        apply (cached_ok_view ws q n U a b r _ Hr (v_closed n _ Ic) Sc); eauto.
+    + assert (Hr : fc ws q (vs_cur vs) a b = fc_spec ws q n (evs (vs_cur vs)) a b)
+        by (apply (fc_eq_spec n (vs_cur vs) Ic ws q a b ea eb Hq Ha Hb)).
+      unfold hst_ok, fcache_add. cbn [fc_items]. repeat (split; [assumption|]). split.
+      * intros k r' Hin'. apply firstn_incl in Hin'. destruct Hin' as [[= <- <-]|Hin'].
+        -- exists (evs (vs_cur vs)). cbn [fst snd]. split; [apply (v_closed n _ Ic)|]. split; [exact Sc|]. eauto.
+        -- apply Hc. eapply fcache_remove_incl; eauto.
+      * intros a' b' r' E' [[= <- <- <- <-]|Hin']; [exact Hr|eapply Ho; eauto].
+  - unfold hst_ok. cbn [vs_flush vs_flushed vs_cur]. auto 10.
+  - unfold hst_ok. cbn [vs_drop vs_flushed vs_cur]. auto 10.
+Qed.
+
+Lemma wf_hops_cons n U Ef Ec op ops : wf_hops n U Ef Ec (op :: ops) ->
+  wf_hops n U Ef Ec [op] /\
+  wf_hops n U (match op with HFlush => Ec | _ => Ef end)
+              (match op with HAdd e => (eid e, e) :: Ec | HDrop => Ef | _ => Ec end) ops.
+Proof. destruct op as [e|a b| |]; cbn [wf_hops]; tauto. Qed.
+
+Theorem hops_ok ws q n U : 0 < q -> forall ops st, hst_ok ws q n U st ->
+  (let '(vs, _, _) := st in wf_hops n U (evs (vs_flushed vs)) (evs (vs_cur vs)) ops) ->
+  hst_ok ws q n U (fold_left (hstep ws q) ops st).
+Proof.
+  intros Hq. induction ops as [|op ops IH]; intros st Hok W; cbn [fold_left]; [exact Hok|].
+  destruct st as [[vs c] out].
+  destruct (wf_hops_cons n U _ _ op ops W) as [W1 W2].
+  pose proof (hstep_ok ws q n U (vs, c, out) op Hq Hok W1) as Hok'.
+  apply IH; [exact Hok'|].
+  destruct op as [e|a b| |]; cbn [hstep].
+  - destruct W1 as (We & _). destruct Hok as (_ & Ic & _).
+    destruct (add_preserves n (vs_cur vs) e Ic We) as (s1 & Hadd & _ & Hevs).
+    unfold vs_add. rewrite Hadd. cbn [snd vs_flushed vs_cur]. rewrite Hevs. exact W2.
+  - destruct (fc_query ws q (vs_cur vs) c a b). exact W2.
+  - exact W2.
+  - exact W2.
+Qed.
+
+(* every answer of every history of Adds, cached queries, Flushes and Drops (any LRU capacity; the
+   LRU is never purged) equals the specification on the view that was current when it was asked *)
+Theorem history_answers_equal_spec ws q n cap U ops : 0 < q -> wf_hops n U [] [] ops ->
+  let '(_, _, out) := fold_left (hstep ws q) ops (vs_init n, fcache_new cap, []) in
+  forall a b r E, In (a, b, r, E) out -> r = fc_spec ws q n E a b.
+Proof.
+  intros Hq W.
+  pose proof (hops_ok ws q n U Hq ops (vs_init n, fcache_new cap, [])) as H.
+  destruct (fold_left (hstep ws q) ops (vs_init n, fcache_new cap, [])) as [[vs c] out].
+  destruct H as (_ & _ & _ & _ & _ & Ho).
+  - unfold hst_ok. cbn [vs_init vs_flushed vs_cur fcache_new fc_items].
+    split; [apply vinv_init|]. split; [apply vinv_init|]. split; [intros x ex Hx; discriminate Hx|].
+    split; [intros x ex Hx; discriminate Hx|]. split; [intros k r []|intros a b r E []].
+  - exact W.
+  - exact Ho.
+Qed.
+
+(* crit-freedom: under the invariant the query never takes a crit path *)
+Theorem fc_res_spec n s ws q a b ea eb : vinv n s -> 0 < q -> evt s a ea -> evt s b eb ->
+  fc_res ws q s a b = Some (fc_spec ws q n (evs s) a b).
+Proof.
+  intros I Hq Ea Eb. unfold fc_res.
+  destruct (v_keys n s I a ea Ea) as ((av & Ha) & _ & _).
+  destruct (v_keys n s I b eb Eb) as (_ & (bv & Hb) & (bbr & Hbb)). unfold onbr in Hbb.
+  rewrite Ha, Hb, Hbb. f_equal. apply (fc_eq_spec n s I ws q a b ea eb Hq Ea Eb).
+Qed.
+
+(* C06 analogue for Flush / Drop histories *)
+Theorem vstore_merged n ops st a ea : vinv n (vs_flushed st) -> vinv n (vs_cur st) ->
+  wf_vops n (evs (vs_flushed st)) (evs (vs_cur st)) ops ->
+  let st' := fold_left vs_step ops st in
+  evt (vs_cur st') a ea -> map proj (merged (vs_cur st') a) = merged_spec n (evs (vs_cur st')) a.
+Proof.
+  intros If Ic W. destruct (vstore_inv n ops st If Ic W) as [_ Ic']. cbn zeta in *.
+  intros Ha. apply (merged_eq_spec n _ Ic' a ea Ha).
+Qed.
